@@ -344,6 +344,23 @@ def check_path_and_observe(prog, rep):
     if None in (sp, gp, gv):
         rep.missing("C19.5", "set_path / get_path / get_path_as_vec")
     else:
+        # the segment list is the stored Uri-Path values one by one - never re-derived from the joined text (joining
+        # loses the difference between [""] and [], and between ["a/b"] and ["a", "b"])
+        resplit = []
+        for x in reachable(prog, gv):
+            if not x["path"].startswith("request::"):
+                continue
+            for bb in x["blocks"]:
+                t = bb["term"]
+                if t["k"] == "call" and not bb["cleanup"]:
+                    pth = (t.get("resolved") or t.get("callee") or {}).get("path", "") or ""
+                    if pth.startswith("core::str::<impl str>::") and pth.rsplit("::", 1)[-1] in ("split", "rsplit", "split_terminator", "splitn", "split_inclusive", "split_once") \
+                            or pth.endswith("CoapRequest::<Endpoint>::get_path"):
+                        resplit.append((pth.rsplit("::", 1)[-1], bb["tspan"]["l"]))
+        rep.ob("C19.5", "segments-from-options", not resplit,
+               "get_path_as_vec derives its segments from joined path text (%s) instead of taking the stored Uri-Path values one by one: "
+               "an empty first segment or a '/' inside a segment reads back differently from the raw options" % resplit[:3],
+               {"file": gv["span"]["f"], "line": gv["span"]["l"], "fn": gv["path"]})
         def call_consts(b, path):
             out = []
             for bb in b["blocks"]:
@@ -560,7 +577,8 @@ def check_generic_view(prog, rep):
         tr = b.get("impl_trait") or ""
         if b.get("promoted") or b.get("kind") != "AssocFn" or not tr.startswith("coap_message::"):
             continue
-        if prog.types[b["impl_self"]]["s"] != "packet::Packet" or b["name"] not in ("code", "set_code", "payload", "set_payload", "add_option", "options"):
+        if prog.types[b["impl_self"]]["s"] != "packet::Packet" or b["name"] not in ("code", "set_code", "payload", "set_payload", "add_option", "options",
+                                                                                    "payload_mut", "payload_mut_with_len", "truncate"):
             continue
         n_methods += 1
         name = b["name"]
@@ -623,6 +641,37 @@ def check_generic_view(prog, rep):
             rep.ob("C19.9", key, bool(res) and not bad,
                    "coap-message %s payload() does not return the whole raw payload on %d of %d paths (a message copied through the generic interface loses or shortens its payload)" % (ver, bad, len(res)), site,
                    sample={"rule": "C19.9", "method": key, "paths": len(res)})
+        elif name in ("payload_mut", "payload_mut_with_len", "truncate"):
+            # the mutable payload view is the raw payload itself: after payload_mut_with_len(n) the message's payload is
+            # exactly n bytes long and the slice handed out is all of it; truncate(n) leaves min(len, n) bytes
+            I, st, args, cty, cplace = setup()
+            pplace = args[0].place.extend(("f", P["payload"]))
+            pv0 = I.read(st, pplace)
+            I, res = run(prog, b, args=args, st=st, I=I)
+            bad = 0
+            for s_, rv in res:
+                pv = I.read(s_, pplace)
+                rs = rv
+                if isinstance(rs, EnumV) and list(rs.variants) == [0] and isinstance(rs.variants[0], StructV) and rs.variants[0].fields:
+                    rs = rs.variants[0].fields[0]       # Ok(slice) in the 0.3 trait
+                ok = isinstance(pv, VecV) and isinstance(pv0, VecV)
+                if ok and name == "payload_mut_with_len":
+                    n_ = args[1]
+                    ok = isinstance(n_, IntV) and s_.entails_eq(pv.len, n_.aff)
+                if ok and name == "payload_mut":
+                    ok = s_.entails_eq(pv.len, pv0.len)
+                if ok and name in ("payload_mut", "payload_mut_with_len"):
+                    ok = isinstance(rs, SliceV) and isinstance(rs.base, tuple) and rs.base[0] == "vec" and rs.base[1] == pplace \
+                        and s_.entails_eq(rs.off, Aff.const(0)) and s_.entails_eq(rs.len, pv.len)
+                if ok and name == "truncate":
+                    n_ = args[1]
+                    ok = isinstance(n_, IntV) and s_.entails(n_.aff - pv.len) and s_.entails(pv0.len - pv.len) \
+                        and (s_.entails_eq(pv.len, n_.aff) or s_.entails_eq(pv.len, pv0.len))
+                if not ok:
+                    bad += 1
+            rep.ob("C19.9", key, bool(res) and not bad,
+                   "coap-message %s %s() does not leave / hand out exactly the raw payload of the length asked for on %d of %d paths (bytes of an earlier, "
+                   "longer payload stay in the message)" % (ver, name, bad, len(res)), site, sample={"rule": "C19.9", "method": key, "paths": len(res)})
         elif name == "set_payload":
             I, st, args, cty, cplace = setup()
             pplace = args[0].place.extend(("f", P["payload"]))
@@ -672,6 +721,7 @@ def check_generic_view(prog, rep):
                    "coap-message %s options() does not start a fresh walk over the whole option map (iterator from the first entry, no pending value list)" % ver, site,
                    sample={"rule": "C19.9", "method": key, "paths": len(res)})
     rep.floor("C19.9", "coap-message view methods checked against the raw state", n_methods, 12)
+    # (payload_mut exists in the 0.2 trait only)
 
 
 def tab_desc(prog, v):
